@@ -144,8 +144,9 @@ class C03:
                 exp = []
                 for prio in (0, 3, 6, 7):
                     for dp in (0, 1):
-                        for pf in [0, 1, 0x7F, 0xC9, 0xE7, 0xEF, 0xF0, 0xF1, 0xFE, 0xFF]:
-                            if dll == "j1939-22" and pf in (0x25, 0x4D, 0x4E):
+                        # (on data page 1 the PDU formats of the protocol's own groups are ordinary parameter groups)
+                        for pf in [0, 1, 0x7F, 0xC9, 0xE7, 0xEF, 0xF0, 0xF1, 0xFE, 0xFF] + ([0xEA, 0xEB, 0xEC, 0xEE, 0x25, 0x4D, 0x4E] if dp else []):
+                            if dll == "j1939-22" and pf in (0x25, 0x4D, 0x4E) and not dp:
                                 continue
                             for ps in (0x30, 0xFF) if pf < 240 else (0, 0x30, 0xCA, 0xFF):
                                 for sa in (0, 0x42, 0xFD):
